@@ -329,7 +329,7 @@ def filter_facts_at(ctx, fn: FuncInfo, node: ast.AST, res: Resolver | None = Non
     return facts_cnf(keep, res)
 
 
-def path_fact_sets(ctx, fn: FuncInfo, node: ast.AST, res: Resolver | None = None, limit: int = 4000) -> list[list[frozenset]]:
+def path_fact_sets(ctx, fn: FuncInfo, node: ast.AST, res: Resolver | None = None, limit: int = 4000, via: ast.AST | None = None) -> list[list[frozenset]]:
     """Branch facts along every acyclic CFG path from the function entry to `node`: one CNF per path."""
     g = ctx.cfg(fn)
     res = res or resolver(ctx, fn)
@@ -354,10 +354,13 @@ def path_fact_sets(ctx, fn: FuncInfo, node: ast.AST, res: Resolver | None = None
                 cache[k] = to_cnf(g.nodes[nd.test].expr, nd.polarity, res)
             return cache[k]
         return []
+    via_id = g.node_of(via) if via is not None else None
     stack = [(g.entry, [], frozenset([g.entry]))]
     while stack:
         cur, facts, seen = stack.pop()
         if cur == target:
+            if via_id is not None and via_id not in seen:
+                continue
             out.append(facts)
             if len(out) > limit:
                 raise AnalysisError(f'{fn.qualname}: too many paths')
@@ -369,12 +372,12 @@ def path_fact_sets(ctx, fn: FuncInfo, node: ast.AST, res: Resolver | None = None
     return out
 
 
-def all_paths_imply(ctx, fn: FuncInfo, node: ast.AST, required, side_ok=lambda l: False, res: Resolver | None = None) -> tuple[bool, str]:
+def all_paths_imply(ctx, fn: FuncInfo, node: ast.AST, required, side_ok=lambda l: False, res: Resolver | None = None, via: ast.AST | None = None) -> tuple[bool, str]:
     """On every acyclic path to `node`: the facts contain `required` (possibly in a clause whose other literals are
     side_ok escapes), or a side_ok literal holds outright on that path."""
-    paths = path_fact_sets(ctx, fn, node, res)
+    paths = path_fact_sets(ctx, fn, node, res, via=via)
     if not paths:
-        return False, 'node unreachable'
+        return (True, 'no path through the construction site') if via is not None else (False, 'node unreachable')
     for cl in paths:
         if clause_implies(cl, required, side_ok):
             continue
